@@ -1,12 +1,19 @@
 use crate::{Cfg, Pr, Symbol, SymbolAttribute, generate_name};
 
 /// Augment the grammar with a new start symbol if the current start symbol has more than one
-/// production.
+/// production or is used on the right-hand side of any production.
 /// The new start symbol is created by adding a new production to the grammar at the beginning.
 /// This is necessary for LR parsing to have a single start production with implicit EOF at the end.
 pub fn augment_grammar(cfg: &Cfg) -> Cfg {
     let start_symbol_production_count = cfg.matching_productions(&cfg.st).len();
-    if start_symbol_production_count == 1 {
+    // The start symbol must also not be used on any right-hand side. Otherwise the accept action
+    // of the start production could be taken in a nested context, too.
+    let start_symbol_used_on_rhs = cfg.pr.iter().any(|p| {
+        p.get_r()
+            .iter()
+            .any(|s| matches!(s, Symbol::N(n, ..) if *n == cfg.st))
+    });
+    if start_symbol_production_count == 1 && !start_symbol_used_on_rhs {
         return cfg.clone();
     }
     let mut new_cfg = cfg.clone();
